@@ -190,23 +190,24 @@ type pkgInfo struct {
 }
 
 type accExtractor struct {
-	repo         string
-	fset         *token.FileSet
-	ann          accAnnotations
-	pkgs         []*pkgInfo
-	tracked      map[*types.TypeName]string // type → display name
-	atomicTy     map[string]bool
-	funcs        map[*types.Func]*funcNode
-	rows         []*accRow
-	unresolved   []string
-	usedAnn      map[string]bool
-	nclosure     map[string]int
-	methodsNamed map[string][]*funcNode // declared methods by name (interface-call targets)
-	chaEdges     int
-	aliases      map[string]map[string]bool // "Type.field" (pointer-typed field) → tracked fields it may point to
-	aliasWhy     []string
-	ourPkgs      map[*types.Package]*pkgInfo
-	trackedNames map[string]bool
+	repo          string
+	fset          *token.FileSet
+	ann           accAnnotations
+	pkgs          []*pkgInfo
+	tracked       map[*types.TypeName]string // type → display name
+	atomicTy      map[string]bool
+	funcs         map[*types.Func]*funcNode
+	rows          []*accRow
+	unresolved    []string
+	usedAnn       map[string]bool
+	nclosure      map[string]int
+	methodsNamed  map[string][]*funcNode // declared methods by name (interface-call targets)
+	chaEdges      int
+	aliases       map[string]map[string]bool // "Type.field" (pointer-typed field) → tracked fields it may point to
+	aliasWhy      []string
+	ourPkgs       map[*types.Package]*pkgInfo
+	trackedNames  map[string]bool
+	confinedCache map[string]map[string]bool
 }
 
 func (x *accExtractor) typeDisplay(tn *types.TypeName) string {
@@ -525,6 +526,16 @@ func (w *walker) stmt(s ast.Stmt, ls *lockset) (*lockset, bool) {
 				delete(ls.pub, k) // overwritten: the name no longer refers to the published object
 			}
 			w.expr(l, ls, mWrite)
+			if (s.Tok == token.DEFINE || s.Tok == token.ASSIGN) && len(s.Lhs) == len(s.Rhs) {
+				// v := x.f with x.f a pointer field of a tracked type to an untracked struct (a configuration
+				// object such as Transport.TLS that the CALLER owns and other pools/connections share): from
+				// here on writes through v are writes to shared memory, until v is reassigned (v = v.Clone())
+				if k := exprKey(l); k != "" && !strings.Contains(k, ".") {
+					if c, ok := w.sharedPtrField(s.Rhs[i]); ok {
+						ls.pub[k] = pubInfo{container: c, anyUse: false}
+					}
+				}
+			}
 			if s.Tok == token.DEFINE || s.Tok == token.ASSIGN {
 				if id, ok := l.(*ast.Ident); ok && len(s.Lhs) == len(s.Rhs) && isFresh(s.Rhs[i]) {
 					if o := w.p.info.Defs[id]; o != nil {
@@ -873,6 +884,11 @@ func (w *walker) selector(e *ast.SelectorExpr, ls *lockset, mode amode, atomic b
 	next:
 		_ = viaPointer
 		t = f.Type()
+	}
+	if mode == mWrite {
+		if c, ok := w.sharedPtrField(e.X); ok {
+			w.pubRow(c, e.Pos(), ls) // x.f.g = … through the shared pointer x.f
+		}
 	}
 	// the operand: a value-struct operand is accessed in the same mode, a pointer operand is read
 	xm := mRead
@@ -1566,16 +1582,11 @@ func (x *accExtractor) emit(root string) error {
 			if !globMatch(t.Field, r.Field) || r.Phase == "ctor" {
 				continue
 			}
-			ok := false
 			base := r.Func
 			if i := strings.Index(base, "$"); i >= 0 {
 				base = base[:i]
 			}
-			for _, c := range t.ConfinedTo {
-				if globMatch(c, base) {
-					ok = true
-				}
-			}
+			ok := x.confined(t.ConfinedTo)[base]
 			if !ok {
 				confinement = append(confinement, fmt.Sprintf("%s accessed in %s (%s:%d), outside the functions the token %s is confined to", r.Field, r.Func, r.File, r.Line, t.Token))
 			}
@@ -2095,4 +2106,96 @@ func (w *walker) retained(ls *lockset, pos token.Pos) {
 			w.pubRow(info.container, pos, ls)
 		}
 	}
+}
+
+// confined: the functions a token is confined to = those matching the annotation's globs, closed under the call
+// graph: an unexported function that is never used as a value, never started with `go`, and whose static callers
+// are all confined is itself confined (an extracted helper inherits the confinement of its only callers — the same
+// propagation as caller-holds for locks).
+func (x *accExtractor) confined(globs []string) map[string]bool {
+	key := strings.Join(globs, "|")
+	if x.confinedCache == nil {
+		x.confinedCache = map[string]map[string]bool{}
+	}
+	if c, ok := x.confinedCache[key]; ok {
+		return c
+	}
+	set := map[string]bool{}
+	for _, fn := range x.funcs {
+		for _, g := range globs {
+			if globMatch(g, fn.name) {
+				set[fn.name] = true
+			}
+		}
+	}
+	for changed := true; changed; {
+		changed = false
+		for _, fn := range x.funcs {
+			if set[fn.name] || !fn.propagate || len(fn.edges) == 0 {
+				continue
+			}
+			all := true
+			for _, e := range fn.edges {
+				if e.spawn || !set[e.caller.name] {
+					all = false
+				}
+			}
+			if all {
+				set[fn.name], changed = true, true
+			}
+		}
+	}
+	x.confinedCache[key] = set
+	return set
+}
+
+// sharedPtrField: e is `x.f` where f is a field of a tracked type whose type is a pointer to a named struct that
+// is neither tracked nor a sync/atomic type — e.g. connPool.tls, Transport.TLS, Dialer.TLS (*tls.Config),
+// Batch.msgs (*messageSetReader).  Returns the container name "Owner.f".
+func (w *walker) sharedPtrField(e ast.Expr) (string, bool) {
+	for {
+		if p, ok := e.(*ast.ParenExpr); ok {
+			e = p.X
+			continue
+		}
+		break
+	}
+	se, ok := e.(*ast.SelectorExpr)
+	if !ok {
+		return "", false
+	}
+	sel := w.p.info.Selections[se]
+	if sel == nil || sel.Kind() != types.FieldVal {
+		return "", false
+	}
+	// owner of the last step
+	t := sel.Recv()
+	idx := sel.Index()
+	for _, k := range idx[:len(idx)-1] {
+		st, ok := derefStruct(t)
+		if !ok {
+			return "", false
+		}
+		t = st.Field(k).Type()
+	}
+	owner, tracked := w.trackedStruct(t)
+	if !tracked {
+		return "", false
+	}
+	ft := sel.Obj().Type()
+	ptr, isPtr := ft.(*types.Pointer)
+	if !isPtr {
+		return "", false
+	}
+	n := namedOf(ptr.Elem())
+	if n == nil {
+		return "", false
+	}
+	if _, isStruct := n.Underlying().(*types.Struct); !isStruct {
+		return "", false
+	}
+	if _, tr := w.trackedStruct(ft); tr || w.isAtomicNamed(ft) {
+		return "", false
+	}
+	return owner + "." + sel.Obj().Name(), true
 }
